@@ -71,6 +71,23 @@ checks = {
          "2 concurrent requests; logging goes to a discarding logger; the HTTP transport itself (net/http server goroutines) is outside the harness."),
 }
 
+HIST = " Second stage (DESIGN.md 10.5): the history oracle - every sequence of calls of a per-property alphabet up to depth 2-4 in one goroutine; each call must return what it returns alone (history independence), earlier results must not change under later calls (result stability), multi-step calls carry their own consistency verdict - and an adversarial sync.Pool (bytes inverted while the pool owns an object) in every build."
+HIST_ON = {"C01": "frames", "C02": "frame cryptography", "C03": "frame cryptography", "C04": "frame cryptography", "C05": "frame cryptography", "C06": "frames", "C08": "frames", "C09": "frames (incl. a relayed frame decoded from the receiver's own payload bytes)",
+           "C10": "frames, frame cryptography and band instances", "C11": "addressing and identifier text forms", "C12": "band getters (pairs; refusable calls: triples) plus an explicit-state search over channel histories with duplicate frequencies",
+           "C13": "band getters and band instances", "C14": "band getters", "C17": "key envelopes with a KEK buffer overwritten in place", "C19": "Encode on session buffers with spare capacity"}
+for k, what in HIST_ON.items():
+    lv, eng, tech, text, note = checks[k]
+    checks[k] = (lv, eng, tech, text + HIST + " Alphabet here: " + what + ".", note)
+lv, eng, tech, text, note = checks["C14"]
+checks["C14"] = (lv, eng, E2 + "; " + E3, text + " Schedules: one band object shared by three threads planning for three devices (CN470, US915, EU868+custom), preemption-bounded and unbounded with state-key pruning; probes on receiver fields some method writes; every plan equals the plan made alone, no race, no deadlock.", note + " Read-only methods being safe for concurrent callers is taken as part of 'for any history': a network server plans for all its devices from one band object.")
+for k in ("C10", "C16"):
+    lv, eng, tech, text, note = checks[k]
+    checks[k] = (lv, eng, tech, text + " Every scenario is additionally explored without a preemption bound, with canonical state-key pruning (evidence: all_interleavings_covered, distinct_global_states); sync.RWMutex is modelled with pending writers excluding new readers (recursive read locks deadlock as in Go); reads of names no execution writes and accesses to objects only one thread touches are not scheduling points (checked assumptions, fixpoint restart).", note)
+lv, eng, tech, text, note = checks["C15"]
+checks["C15"] = (lv, eng, tech, text + " Second stage: read-only operations are called in every state a path passes through (warm hook: a memo a mutator forgets to invalidate becomes stale, not absent); directed block-pattern histories on the fixed plans (every subset of whole 16-channel blocks switched off by real Disable calls).", note)
+lv, eng, tech, text, note = checks["C07"]
+checks["C07"] = (lv, eng, tech, text + " In every registry state the encoder side is checked too: a proprietary command carrying the size registered for its direction encodes to CID|payload, alone and inside a frame of that direction, and decodes back.", note)
+
 def load_extra():
     p = os.path.join(V, "bin", "manifest_table.json")
     if os.path.exists(p):
